@@ -64,3 +64,51 @@ def abst(value):
 def same_json(a, b):
     """structural, type-exact JSON equality (tuples == lists)"""
     return _key(a) == _key(b)
+
+
+def randomize(seed):
+    """Thorough tier: replace the representative of every class whose CONTENT no rule inspects by a random member of the
+    same class (ids, strings, big integers, floats, nested payloads), keeping the relations the specification relies on
+    (distinctness, "1" next to 1, truthiness, JSON type, key 'a' of the named-params object)."""
+    import random
+    import string
+    rnd = random.Random(seed)
+
+    def rstr(n=None, alphabet=None):
+        alphabet = alphabet or (string.ascii_letters + string.digits + ' _-./:;!?\u00e9\u4e2d\u0416\U0001F600"\\\n\t')
+        return ''.join(rnd.choice(alphabet) for _ in range(n or rnd.randint(1, 12)))
+
+    def rjson(depth=0):
+        k = rnd.randint(0, 7 if depth < 3 else 4)
+        if k == 0:
+            return None
+        if k == 1:
+            return rnd.choice([True, False])
+        if k == 2:
+            return rnd.randint(-10 ** rnd.randint(1, 30), 10 ** rnd.randint(1, 30))
+        if k == 3:
+            return rnd.choice([0.5, -1.25, 1e-7, 3.0e20, 12345.678])
+        if k == 4:
+            return rstr()
+        if k in (5, 6):
+            return [rjson(depth + 1) for _ in range(rnd.randint(0, 3))]
+        return {rstr(rnd.randint(1, 5)): rjson(depth + 1) for _ in range(rnd.randint(0, 3))}
+    ints = rnd.sample(range(2, 10 ** 6), 3)
+    new = {
+        'i1': ints[0], 'i2': ints[1], 'i3': ints[2], 'im1': -rnd.randint(1, 10 ** 9),
+        'ibig': rnd.choice([1, -1]) * (2 ** 63 + rnd.randint(1, 2 ** 70)),
+        'f1_5': rnd.choice([1.5, -0.25, 2.5e10, 1e-3]),
+        's_a': 'a' + rstr(rnd.randint(0, 6), string.ascii_letters), 's_b': 'b' + rstr(rnd.randint(0, 6), string.ascii_letters),
+        's_esc': rstr(rnd.randint(3, 20)) + '"\\\n\u0000\U0001F600',
+        'a_deep': [1, [rjson(), [rjson()]]],
+    }
+    new['s_1'] = str(new['i1'])
+    od = {'a': rjson(1) or {'k': 1}, 'z': rjson(1)}
+    new['o_deep'] = od
+    CONCRETE.update(new)
+    CONCRETE['r_deep'] = {'a': 1, 'b': CONCRETE['a_deep'][1]}
+    _REVERSE.clear()
+    for t, v in CONCRETE.items():
+        _REVERSE.setdefault(_key(v), t)
+    if len(_REVERSE) < len({k for k in CONCRETE if not k.startswith(('m_', 'mw_'))}) - 2:
+        raise RuntimeError('randomised representatives collide')
